@@ -21,7 +21,7 @@ CHECKS = {
         "Trusts unicodedata; the precondition is read literally (name after leading underscores does not start with 'hyx_').",
         "names", "2/C33"),
     "C18": (
-        "Hypothesis text generators (token alphabet, arbitrary Unicode, mutations of the repository's .hy files, deep nesting, cut Engine-B programs); validity-predicate oracle on the outcome type, alarm-based termination check",
+        "Hypothesis text generators (token alphabet, arbitrary Unicode, mutations of the repository's .hy files, deep nesting, cut Engine-B programs, texts ending in Python-only white space and line terminators); validity-predicate oracle on the outcome type, alarm-based termination check",
         "Tens of thousands (quick) to millions (thorough) of texts are read; any exception other than LexException/PrematureEndOfInput, or a read "
         "that does not finish, is a violation. Deep-nesting inputs pin the recursion limit so RecursionError escaping the reader is visible.",
         "Termination is observed through a 20 s / 120 s limit per read, in a helper process that is killed when a read is stuck inside C code; inputs are <= 8 KB.",
@@ -80,7 +80,7 @@ CHECKS = {
         "Code objects are compared field-wise (marshal reference flags and CPython's own frozenset constant order are not Hy's doing).",
         "progs", "2/C13"),
     "C17": (
-        "Engine-A programs printed one subform per line with a raising form planted at every evaluated leaf position (plain, through a pass-through macro, inside a macro template); oracle = line recorded by the generator vs. innermost traceback frame of the program's file",
+        "Engine-A programs printed one subform per line with a raising form planted at every evaluated leaf position (plain, as a macro argument spliced into a template, as a two-line core operator form returned unchanged by a macro, inside a macro template); oracle = line recorded by the generator vs. innermost traceback frame of the program's file",
         "All leaf positions of each generated program are tried; the reference interpreter decides whether the raising form is reached and the exception escapes; "
         "the traceback line must be the line of the raising form (of the macro call for template-made code).",
         "Trusts vf/progs.py for reachability and the renderer's line bookkeeping.",
@@ -156,8 +156,8 @@ CHECKS.update({
         "Trusts vf/c37_model.py; names made visible only by a star-require through the module table are outside the domain (the docs do not say what a second reader of the same module sees).",
         "readermacros", "2/C37"),
     "C11": (
-        "enumerated slot x wrapper sweep (114 base shapes x every evaluated leaf slot x 12 wrappers: #*/#** sugar and long form, unpack forms with 0/2 arguments, :k v, statement-producing operands) plus Hypothesis-drawn form trees over 56 form kinds, every evaluated leaf a fresh variable; static AST name-presence oracle plus dynamic lookup-logging execution under an all-accepting dummy namespace; in-place minimisation to a construct-path bucket",
-        "A form is either rejected (Hy or Python syntax error) or every operand variable occurs as a loaded Name in the compiled module and - where its evaluation is unconditional - is looked up when the code runs. 3201 enumerated cases and 24 000 (quick) / 400 000 (thorough) drawn trees.",
+        "enumerated slot x wrapper sweep (140 base shapes x every evaluated leaf slot x 12 wrappers: #*/#** sugar and long form, unpack forms with 0/2 arguments, :k v, statement-producing operands) plus Hypothesis-drawn form trees over 56 form kinds, every evaluated leaf a fresh variable; static AST name-presence oracle plus dynamic lookup-logging execution under an all-accepting dummy namespace; in-place minimisation to a construct-path bucket",
+        "A form is either rejected (Hy or Python syntax error) or every operand variable occurs as a loaded Name in the compiled module and - where its evaluation is unconditional - is looked up when the code runs. 4024 enumerated cases and 24 000 (quick) / 400 000 (thorough) drawn trees.",
         "Conditional positions (branches, short-circuit tails, loop bodies, handlers, uncalled bodies, lazy annotations) carry no run-time requirement; internal-error rejections are C10's subject and only counted here.",
         "forms", "2/C11"),
     "C28": (
